@@ -144,6 +144,7 @@ func (s *sim) runHistory(h hooks) {
 			break
 		}
 		hist = append(hist, voteRec{s.b.Engine.LastVotes, s.b.Engine.LastCtx, blk.Hash()})
+		s.g.curVotes, s.g.curCtx = s.b.Engine.LastVotes, s.b.Engine.LastCtx
 		ref := s.observeBuilt(n, blk)
 		if ref == nil {
 			break
